@@ -1,4 +1,5 @@
 import Percival.Proofs.EventsC04Run
+import Percival.Proofs.TimerQueue
 /-!
 # C04 — event loop: a callback runs at most once, only while registered, only when due
 
@@ -109,5 +110,18 @@ example : C04.admissible [.op (.regImm 1 0) .ok, .cb 1, .cb 1] = false ∧
     C04.admissible [.op (.regTimer 1 1000) .ok, .op (.clock 999) .ok, .cb 1] = false ∧
     C04.admissible [.op (.regTimer 1 1000) .ok, .op (.clock 999) .ok, .op (.resetTimer 1) .ok, .op (.clock 1000) .ok, .cb 1,
                     .op (.regTimer 1 5) .ok, .op (.clock 5) .ok, .cb 1] = true := by decide
+
+
+/-! ## closed form: the timer-queue contract is discharged by the C13 theorems -/
+
+open Percival.Proofs.TQ in
+/-- the six timer-queue statements the event-loop proofs rely on, as proved for `Model.TimerQueue` in C13 -/
+def tqContract : TQContract :=
+  { TQInv := TQInv, empty := tq_inv_empty, add := tq_add, delete := tq_delete, increase := tq_increase,
+    getmin := tq_getmin, getptr := tq_getptr }
+
+/-- `run_admissible_C04` with no hypothesis left about the timer queue -/
+theorem run_admissible_C04_closed (fuel : Nat) (prog : List Top) : C04.admissible (run fuel prog) = true :=
+  run_admissible_C04 tqContract fuel prog
 
 end Percival.C04
